@@ -289,8 +289,17 @@ func (it *Interp) textModel(st *state, name string, c *ssa.CallCommon, args []Va
 			st.mem[o][fmt.Sprintf("[%d]", i)] = b
 		}
 		return TupleV{SliceV{Obj: o, Len: n}, NilV{}}, true
-	case "strings.Split":
-		// split a string whose separator positions are decidable (constant characters or digits)
+	case "strings.Split", "strings.SplitN":
+		// split a string whose separator positions are decidable (constant characters or digits);
+		// SplitN(s, sep, n > 0): at most n parts, the last one holding the unsplit remainder
+		limit := -1
+		if name == "strings.SplitN" {
+			n, okN := it.concreteInt(args[2])
+			if !okN || n == 0 {
+				return nil, false
+			}
+			limit = n
+		}
 		s, ok1 := args[0].(StrV)
 		sep, ok2 := args[1].(StrV)
 		if !ok1 || !ok2 || !sep.Known || len(sep.S) != 1 {
@@ -312,6 +321,10 @@ func (it *Interp) textModel(st *state, name string, c *ssa.CallCommon, args []Va
 		var parts [][]BV
 		cur := []BV{}
 		for _, ch := range chars {
+			if limit > 0 && len(parts) == limit-1 {
+				cur = append(cur, ch) // the last permitted part takes the rest as it is
+				continue
+			}
 			if v, isC := ch.IsConst(); isC && ch.Hex == nil {
 				if byte(v) == sep.S[0] {
 					parts = append(parts, cur)
